@@ -1,68 +1,13 @@
 import Xp.Model.C05
+import Xp.Model.C05Fn
+import Xp.Model.C05Claim
+import Xp.Model.C05Ready
+import Xp.Proofs.C05
 /-
 C05 property theorems. Statements only paraphrase the property; helper lemmas
 live above each theorem only when trivial, otherwise in Xp/Proofs.
 -/
 namespace Xp.C05
-
-/-! ### helper lemmas about `setCond` (kept here because they are tiny) -/
-
-theorem statusOf_setCond_self (cs : List Cond) (c : Cond) : statusOf (setCond cs c) c.type = some c.status := by
-  induction cs with
-  | nil => simp [setCond, statusOf]
-  | cons x xs ih =>
-    unfold setCond
-    split
-    · simp [statusOf, List.find?]
-    · rename_i h
-      simp only [statusOf, List.find?, h, decide_false] at ih ⊢
-      exact ih
-
-theorem find_replaceAll_ne (xs : List Cond) (c : Cond) (t : String) (h : t ≠ c.type) :
-    (setCond.replaceAll xs c).find? (·.type = t) = xs.find? (·.type = t) := by
-  induction xs with
-  | nil => rfl
-  | cons x xs ih =>
-    unfold setCond.replaceAll
-    by_cases hx : x.type = c.type
-    · have : ¬ x.type = t := fun e => h (e ▸ hx)
-      simp [List.find?, hx, Ne.symm h, ih]
-    · simp only [hx, if_false, List.find?]
-      split <;> simp_all
-
-theorem statusOf_setCond_ne (cs : List Cond) (c : Cond) (t : String) (h : t ≠ c.type) :
-    statusOf (setCond cs c) t = statusOf cs t := by
-  induction cs with
-  | nil => simp [setCond, statusOf, List.find?, Ne.symm h]
-  | cons x xs ih =>
-    unfold setCond
-    split
-    · rename_i hx
-      have hxt : ¬ x.type = t := fun e => h (e ▸ hx)
-      simp only [statusOf, List.find?, Ne.symm h, hxt, decide_false]
-      rw [find_replaceAll_ne xs c t h]
-    · simp only [statusOf, List.find?] at ih ⊢
-      split
-      · rfl
-      · exact ih
-
-/-- function conditions never touch a system condition type -/
-theorem applyFnConds_system (st : St) (fn : List FnCond) (t : String) (ht : isSystem t = true) :
-    statusOf (applyFnConds st fn).1.conds t = statusOf st.conds t := by
-  induction fn generalizing st with
-  | nil => rfl
-  | cons f fs ih =>
-    unfold applyFnConds
-    split
-    · exact ih st
-    · rename_i hf
-      simp only []
-      rw [ih]
-      apply statusOf_setCond_ne
-      intro e; rw [e] at ht; exact hf ht
-
-theorem ready_isSystem : isSystem "Ready" = true := by decide
-theorem synced_isSystem : isSystem "Synced" = true := by decide
 
 /-! ### the property -/
 
@@ -132,22 +77,6 @@ theorem no_forge (old : St) (composed : List Res) (explicit : Option Bool) (fn :
     rw [hs] at h1 h2
     rw [a1, a2, h1, h2]
 
-theorem markUnknown_system (seen : List String) (snap cs : List Cond) (t : String) (ht : isSystem t = true) :
-    statusOf (markUnknown seen snap cs) t = statusOf cs t := by
-  unfold markUnknown
-  induction snap generalizing cs with
-  | nil => rfl
-  | cons c rest ih =>
-    simp only [List.foldl]
-    split
-    · exact ih cs
-    · rename_i h
-      rw [ih]
-      apply statusOf_setCond_ne
-      intro e
-      simp only [Bool.or_eq_true, not_or] at h
-      rw [e] at ht; exact h.1 ht
-
 /-- A failing reconcile never reports Ready=True on its own account (Ready is left as
 it was) and always reports Synced=False; a conflict writes nothing at all. Function
 conditions cannot change that either. -/
@@ -198,10 +127,889 @@ theorem claim_ready_iff (old xrConds : List Cond) (claimTypes : List String) :
   unfold claimReady
   split <;> simp_all [available]
 
+/-! ### one reconcile in full: every phase, every error class, lost writes -/
+
+/-- the reconcile completes: it fails nowhere, is not paused and its status update takes effect -/
+def Call.clean (c : Call) : Prop := c.lost = false ∧ c.paused = false ∧ c.fault = none
+
+/-- the pipeline marked the XR ready, or did not mark it unready and every desired resource is ready -/
+def Call.mayReady (c : Call) : Prop :=
+  c.explicit = some true ∨ (c.explicit = none ∧ ∀ r ∈ c.composed, r.ready = true)
+
+/-- every desired composed resource was rendered and applied successfully -/
+def Call.allSynced (c : Call) : Prop := ∀ r ∈ c.composed, r.synced = true
+
+/-- whether a status write takes effect depends on the call alone, never on what is stored -/
+def Call.writes (c : Call) : Bool :=
+  !c.lost && match c.fault with
+    | some (.get, _) => false
+    | some (p, e) => c.paused || !(p.conflictAware && e == .conflict)
+    | none => true
+
+/-- `reconcile` is the special case of a Compose failure (or none) with an effective status write. -/
+theorem reconcile_eq_call (old : St) (composed : List Res) (explicit : Option Bool) (fn : List FnCond) (e : Err) :
+    reconcile old composed explicit fn e =
+      reconcileCall old ⟨false, composed, explicit, fn,
+        (match e with | .none => none | .generic => some (.compose, .generic)
+                      | .invalid => some (.compose, .invalid) | .conflict => some (.compose, .conflict)), false⟩ := by
+  cases e <;> rfl
+
+theorem call_clean_eq (old : St) (c : Call) (h : c.clean) :
+    reconcileCall old c = some (composeOk old c.composed c.explicit c.fn) := by
+  obtain ⟨h1, h2, h3⟩ := h
+  simp [reconcileCall, h1, h2, h3]
+
+theorem call_writes_iff (old : St) (c : Call) : (reconcileCall old c).isSome = c.writes := by
+  unfold reconcileCall Call.writes
+  cases hl : c.lost with
+  | true => simp
+  | false =>
+    cases hf : c.fault with
+    | none => cases hp : c.paused <;> simp
+    | some pe =>
+      obtain ⟨p, e⟩ := pe
+      cases hp : c.paused <;> cases p <;> cases e <;> simp [Phase.conflictAware]
+
+/-- A reconcile that completes reports Ready=True iff the pipeline marked the XR ready, or did
+not mark it unready and every desired composed resource is ready - whatever was stored before and
+whatever conditions the functions returned. -/
+theorem call_ready_true_iff (old : St) (c : Call) (hc : c.clean) (st : St) (h : reconcileCall old c = some st) :
+    statusOf st.conds "Ready" = some "True" ↔ c.mayReady := by
+  rw [call_clean_eq old c hc, Option.some.injEq] at h
+  subst h
+  rw [statusOf_eq, findC_composeOk_ready]
+  simp only [Option.map_some, Option.some.injEq]
+  exact readyCond_true_iff _ _
+
+/-- A reconcile that completes reports Synced=True iff every desired composed resource was rendered
+and applied successfully in that reconcile. -/
+theorem call_synced_true_iff (old : St) (c : Call) (hc : c.clean) (st : St) (h : reconcileCall old c = some st) :
+    statusOf st.conds "Synced" = some "True" ↔ c.allSynced := by
+  rw [call_clean_eq old c hc, Option.some.injEq] at h
+  subst h
+  rw [statusOf_eq, findC_composeOk_synced]
+  simp only [Option.map_some, Option.some.injEq]
+  exact syncedCond_true_iff _
+
+/-- A reconcile that does not complete - paused, or failing in ANY phase with ANY error class -
+either writes nothing or leaves Ready as it was and reports Synced=False. -/
+theorem call_failing_never_overstates (old : St) (c : Call) (hc : c.paused = true ∨ c.fault ≠ none) (st : St)
+    (h : reconcileCall old c = some st) :
+    statusOf st.conds "Ready" = statusOf old.conds "Ready" ∧ statusOf st.conds "Synced" = some "False" := by
+  unfold reconcileCall at h
+  cases hl : c.lost with
+  | true => simp [hl] at h
+  | false =>
+    simp only [hl, Bool.false_eq_true, if_false] at h
+    have paused_case : ∀ st, some ({ old with conds := setCond old.conds reconcilePaused } : St) = some st →
+        statusOf st.conds "Ready" = statusOf old.conds "Ready" ∧ statusOf st.conds "Synced" = some "False" := by
+      intro st e
+      rw [Option.some.injEq] at e; subst e
+      exact ⟨statusOf_setCond_ne _ _ _ (by decide), statusOf_setCond_self old.conds reconcilePaused⟩
+    have err_case : ∀ st, some ({ old with conds := setCond old.conds reconcileError } : St) = some st →
+        statusOf st.conds "Ready" = statusOf old.conds "Ready" ∧ statusOf st.conds "Synced" = some "False" := by
+      intro st e
+      rw [Option.some.injEq] at e; subst e
+      exact ⟨statusOf_setCond_ne _ _ _ (by decide), statusOf_setCond_self old.conds reconcileError⟩
+    cases hf : c.fault with
+    | none =>
+      rcases hc with hp | hn
+      · simp only [hf, hp, if_true] at h
+        exact paused_case st h
+      · exact absurd hf hn
+    | some pe =>
+      obtain ⟨p, e⟩ := pe
+      cases hp : c.paused with
+      | true =>
+        cases p <;> simp only [hf, hp, if_true] at h <;> first | exact paused_case st h | (simp at h)
+      | false =>
+        cases p <;> simp only [hf, hp, Bool.false_eq_true, if_false] at h
+        all_goals first
+          | (simp at h; done)
+          | (split at h
+             · simp at h
+             · first
+               | exact err_case st h
+               | (split at h
+                  · rw [Option.some.injEq] at h; subst h
+                    rw [statusOf_eq, statusOf_eq, statusOf_eq, findC_composeError_ready, findC_composeError_synced]
+                    exact ⟨rfl, rfl⟩
+                  · exact err_case st h))
+
+/-- Functions cannot forge: the WHOLE stored Ready and Synced conditions (status and reason) after
+any reconcile - completing, paused, failing in any phase with any error class - are those of the
+same reconcile with the function conditions removed. -/
+theorem call_no_forge (old : St) (c : Call) (t : String) (ht : t = "Ready" ∨ t = "Synced") :
+    (reconcileCall old c).map (fun st => findC st.conds t) =
+    (reconcileCall old { c with fn := [] }).map (fun st => findC st.conds t) := by
+  have hsys : isSystem t = true := by rcases ht with rfl | rfl <;> decide
+  have hok : findC (composeOk old c.composed c.explicit c.fn).conds t = findC (composeOk old c.composed c.explicit []).conds t := by
+    rcases ht with rfl | rfl
+    · rw [findC_composeOk_ready, findC_composeOk_ready]
+    · rw [findC_composeOk_synced, findC_composeOk_synced]
+  have herr : findC (composeError old c.fn).conds t = findC (composeError old []).conds t := by
+    rcases ht with rfl | rfl
+    · rw [findC_composeError_ready, findC_composeError_ready]
+    · rw [findC_composeError_synced, findC_composeError_synced]
+  unfold reconcileCall
+  cases hl : c.lost with
+  | true => simp
+  | false =>
+    simp only [Bool.false_eq_true, if_false]
+    cases hf : c.fault with
+    | none => cases hp : c.paused <;> simp [hok]
+    | some pe =>
+      obtain ⟨p, e⟩ := pe
+      cases hp : c.paused <;> cases p <;> simp <;> (try split) <;> simp [herr]
+
+/-- Custom conditions not re-asserted because of a fatal Compose error become Unknown (reason
+FatalError): every non-system condition the XR carried for which the functions returned no
+condition before the failure. -/
+theorem unknown_on_fatal (old : St) (fn : List FnCond) (c : Cond) (hc : c ∈ old.conds)
+    (hs : isSystem c.type = false) (hn : lastFn fn c.type = none) :
+    findC (composeError old fn).conds c.type = some ⟨c.type, "Unknown", "FatalError"⟩ := by
+  unfold composeError
+  simp only []
+  apply findC_markUnknown_unknown _ _ _ _ hs
+  · rw [applyFnConds_seen, hn]; rfl
+  · rw [findC_applyFnConds, hn]
+    simp only [Option.orElse]
+    exact findC_setCond_isSome _ _ _ (findC_isSome_of_mem _ _ hc)
+
+/-- ... and the custom conditions the functions did return before the fatal error keep the
+functions' (last) value. -/
+theorem reasserted_on_fatal (old : St) (fn : List FnCond) (t : String) (f : Cond) (hl : lastFn fn t = some f) :
+    findC (composeError old fn).conds t = some f := by
+  unfold composeError
+  simp only []
+  rw [findC_markUnknown_other _ _ _ _ (Or.inr (by rw [applyFnConds_seen, hl]; rfl)), findC_applyFnConds, hl]
+  rfl
+
+/-- Functions never get a system condition type into status.claimConditionTypes (from where the
+claim reconciler copies conditions to the claim), whatever a reconcile does. -/
+theorem claim_types_never_system (old : St) (c : Call) (st : St) (h : reconcileCall old c = some st)
+    (hold : ∀ t ∈ old.claimTypes, isSystem t = false) : ∀ t ∈ st.claimTypes, isSystem t = false := by
+  have key : ∀ fn (base : St), base.claimTypes = old.claimTypes →
+      ∀ t ∈ (applyFnConds base fn).1.claimTypes, isSystem t = false := by
+    intro fn base hb t ht
+    rcases applyFnConds_claimTypes base fn t ht with h1 | h1
+    · rw [hb] at h1; exact hold t h1
+    · exact h1
+  unfold reconcileCall at h
+  cases hl : c.lost with
+  | true => simp [hl] at h
+  | false =>
+    simp only [hl, Bool.false_eq_true, if_false] at h
+    cases hf : c.fault with
+    | none =>
+      cases hp : c.paused <;> simp only [hf, hp, if_true, Bool.false_eq_true, if_false, Option.some.injEq] at h <;> subst h
+      · exact key c.fn old rfl
+      · exact hold
+    | some pe =>
+      obtain ⟨p, e⟩ := pe
+      cases hp : c.paused with
+      | true =>
+        cases p <;> simp only [hf, hp, if_true] at h <;> first | (simp at h; done) | (rw [Option.some.injEq] at h; subst h; exact hold)
+      | false =>
+        cases p <;> simp only [hf, hp, Bool.false_eq_true, if_false] at h
+        all_goals first
+          | (simp at h; done)
+          | (split at h
+             · simp at h
+             · first
+               | (rw [Option.some.injEq] at h; subst h; exact hold)
+               | (split at h
+                  · rw [Option.some.injEq] at h; subst h
+                    exact key c.fn { old with conds := setCond old.conds reconcileError } rfl
+                  · rw [Option.some.injEq] at h; subst h; exact hold))
+
+/-! ### sequences: one long-lived reconciler, several XRs, any interleaving -/
+
+instance (c : Call) : Decidable c.clean := by unfold Call.clean; infer_instance
+
+/-- XR number `x` is stored with Ready=True -/
+def readyAt (sts : List St) (x : Nat) : Prop := ∃ st, sts[x]? = some st ∧ statusOf st.conds "Ready" = some "True"
+/-- XR number `x` is stored with Synced=True -/
+def syncedAt (sts : List St) (x : Nat) : Prop := ∃ st, sts[x]? = some st ∧ statusOf st.conds "Synced" = some "True"
+
+/-- the last reconcile of XR `x` in the sequence that completed -/
+def lastClean : List Step → Nat → Option Call
+  | [], _ => none
+  | s :: ss, x =>
+    match lastClean ss x with
+    | some c => some c
+    | none => if s.xr = x ∧ s.call.clean then some s.call else none
+
+/-- the last reconcile of XR `x` in the sequence whose status write took effect -/
+def lastWrite : List Step → Nat → Option Call
+  | [], _ => none
+  | s :: ss, x =>
+    match lastWrite ss x with
+    | some c => some c
+    | none => if s.xr = x ∧ s.call.writes = true then some s.call else none
+
+theorem stepSeq_length (sts : List St) (s : Step) : (stepSeq sts s).1.length = sts.length := by
+  unfold stepSeq
+  split
+  · rfl
+  · split
+    · rfl
+    · simp
+
+/-- Isolation: reconciling one XR never changes what is stored for another, however many
+reconciles of however many XRs the (long-lived) reconciler has served before. -/
+theorem seq_isolation (sts : List St) (s : Step) (j : Nat) (hj : j ≠ s.xr) : (stepSeq sts s).1[j]? = sts[j]? := by
+  unfold stepSeq
+  split
+  · rfl
+  · split
+    · rfl
+    · simp only []
+      exact List.getElem?_set_ne (Ne.symm hj)
+
+theorem step_ready (sts : List St) (s : Step) (x : Nat) (hx : x < sts.length) :
+    readyAt (stepSeq sts s).1 x ↔ if s.xr = x ∧ s.call.clean then s.call.mayReady else readyAt sts x := by
+  by_cases hsx : s.xr = x
+  · subst hsx
+    obtain ⟨old, hold⟩ : ∃ old, sts[s.xr]? = some old := ⟨sts[s.xr], by simp [hx]⟩
+    cases hr : reconcileCall old s.call with
+    | none =>
+      have hst : (stepSeq sts s).1 = sts := by simp [stepSeq, hold, hr]
+      rw [hst]
+      have hnc : ¬ s.call.clean := by
+        intro hc; rw [call_clean_eq old s.call hc] at hr; simp at hr
+      simp [hnc]
+    | some st =>
+      have hst : (stepSeq sts s).1 = sts.set s.xr st := by simp [stepSeq, hold, hr]
+      have hget : (stepSeq sts s).1[s.xr]? = some st := by rw [hst]; simp [hx]
+      by_cases hc : s.call.clean
+      · simp only [hc, and_self, if_true]
+        rw [← call_ready_true_iff old s.call hc st hr]
+        unfold readyAt
+        rw [hget]
+        simp
+      · simp only [hc, and_false, if_false]
+        have hw : s.call.writes = true := by rw [← call_writes_iff old, hr]; rfl
+        have hfail : s.call.paused = true ∨ s.call.fault ≠ none := by
+          unfold Call.clean at hc
+          unfold Call.writes at hw
+          cases hl : s.call.lost with
+          | true => simp [hl] at hw
+          | false =>
+            cases hp : s.call.paused with
+            | true => exact Or.inl rfl
+            | false =>
+              right; intro hf; exact hc ⟨hl, hp, hf⟩
+        have := (call_failing_never_overstates old s.call hfail st hr).1
+        unfold readyAt
+        rw [hget, hold]
+        simp [this]
+  · have hiso := seq_isolation sts s x (Ne.symm hsx)
+    simp only [hsx, false_and, if_false]
+    unfold readyAt
+    rw [hiso]
+
+theorem step_synced (sts : List St) (s : Step) (x : Nat) (hx : x < sts.length) :
+    syncedAt (stepSeq sts s).1 x ↔
+      if s.xr = x ∧ s.call.writes = true then (s.call.clean ∧ s.call.allSynced) else syncedAt sts x := by
+  by_cases hsx : s.xr = x
+  · subst hsx
+    obtain ⟨old, hold⟩ : ∃ old, sts[s.xr]? = some old := ⟨sts[s.xr], by simp [hx]⟩
+    cases hr : reconcileCall old s.call with
+    | none =>
+      have hst : (stepSeq sts s).1 = sts := by simp [stepSeq, hold, hr]
+      rw [hst]
+      have hw : s.call.writes = false := by rw [← call_writes_iff old, hr]; rfl
+      simp [hw]
+    | some st =>
+      have hst : (stepSeq sts s).1 = sts.set s.xr st := by simp [stepSeq, hold, hr]
+      have hget : (stepSeq sts s).1[s.xr]? = some st := by rw [hst]; simp [hx]
+      have hw : s.call.writes = true := by rw [← call_writes_iff old, hr]; rfl
+      simp only [hw, and_self, if_true]
+      by_cases hc : s.call.clean
+      · simp only [hc, true_and]
+        rw [← call_synced_true_iff old s.call hc st hr]
+        unfold syncedAt
+        rw [hget]
+        simp
+      · have hfail : s.call.paused = true ∨ s.call.fault ≠ none := by
+          unfold Call.clean at hc
+          unfold Call.writes at hw
+          cases hl : s.call.lost with
+          | true => simp [hl] at hw
+          | false =>
+            cases hp : s.call.paused with
+            | true => exact Or.inl rfl
+            | false =>
+              right; intro hf; exact hc ⟨hl, hp, hf⟩
+        have := (call_failing_never_overstates old s.call hfail st hr).2
+        unfold syncedAt
+        rw [hget]
+        simp [this, hc]
+  · have hiso := seq_isolation sts s x (Ne.symm hsx)
+    simp only [hsx, false_and, if_false]
+    unfold syncedAt
+    rw [hiso]
+
+/-- Over ANY sequence of reconciles of any number of XRs (completing, paused, failing in any phase
+with any error class, losing their status write, interleaved in any order), an XR is stored
+Ready=True at the end iff its last COMPLETED reconcile had the pipeline mark the XR ready, or not
+mark it unready with every desired composed resource ready - or, if none completed, it was
+Ready=True to begin with. Nothing else in the history matters. -/
+theorem seq_ready_reflects_last_completed (sts : List St) (steps : List Step) (x : Nat) (hx : x < sts.length) :
+    readyAt (runSeq sts steps) x ↔
+      match lastClean steps x with
+      | some c => c.mayReady
+      | none => readyAt sts x := by
+  induction steps generalizing sts with
+  | nil => simp [runSeq, lastClean]
+  | cons s ss ih =>
+    have hx' : x < (stepSeq sts s).1.length := by rw [stepSeq_length]; exact hx
+    have := ih (stepSeq sts s).1 hx'
+    unfold runSeq lastClean
+    rw [this]
+    cases lastClean ss x with
+    | some c => rfl
+    | none =>
+      simp only []
+      rw [step_ready sts s x hx]
+      split <;> rfl
+
+/-- ... and it is stored Synced=True at the end iff the last reconcile whose status write took
+effect completed and had every desired composed resource rendered and applied - or, if no write
+took effect, it was Synced=True to begin with. -/
+theorem seq_synced_reflects_last_write (sts : List St) (steps : List Step) (x : Nat) (hx : x < sts.length) :
+    syncedAt (runSeq sts steps) x ↔
+      match lastWrite steps x with
+      | some c => c.clean ∧ c.allSynced
+      | none => syncedAt sts x := by
+  induction steps generalizing sts with
+  | nil => simp [runSeq, lastWrite]
+  | cons s ss ih =>
+    have hx' : x < (stepSeq sts s).1.length := by rw [stepSeq_length]; exact hx
+    have := ih (stepSeq sts s).1 hx'
+    unfold runSeq lastWrite
+    rw [this]
+    cases lastWrite ss x with
+    | some c => rfl
+    | none =>
+      simp only []
+      rw [step_synced sts s x hx]
+      split <;> rfl
+
+/-! ### production of the outcomes by the function pipeline (real FunctionComposer) -/
+
+/-- the desired state of `s` lets the XR be ready -/
+def FnStep.mayReady (s : FnStep) : Prop :=
+  s.xrReady = some true ∨ (s.xrReady = none ∧ ∀ x ∈ s.res, x.ready = some true)
+
+/-- A pipeline completes iff no step fails or returns a FATAL result; its conditions are those of
+all steps in order and its desired state is the LAST step's. -/
+theorem runPipe_ok_iff (steps : List FnStep) (acc : List FnCond) (l : Option FnStep) (conds : List FnCond) (last : Option FnStep) :
+    runPipe steps acc l = .ok conds last ↔
+      (∀ s ∈ steps, s.err = false ∧ s.fatal = false) ∧ conds = acc ++ steps.flatMap (·.conds) ∧
+      last = (match steps.getLast? with | some s => some s | none => l) := by
+  induction steps generalizing acc l with
+  | nil => simp [runPipe]; constructor <;> (intro h; exact ⟨h.1.symm, h.2.symm⟩)
+  | cons s ss ih =>
+    unfold runPipe
+    cases he : s.err with
+    | true => simp [he]
+    | false =>
+      cases hf : s.fatal with
+      | true => simp [he, hf]
+      | false =>
+        simp only [Bool.false_eq_true, if_false]
+        rw [ih]
+        simp only [List.mem_cons, forall_eq_or_imp, he, hf, and_self, true_and, List.flatMap_cons, List.append_assoc]
+        cases hss : ss.getLast? with
+        | none =>
+          have : ss = [] := by simpa using hss
+          subst this
+          simp
+        | some z =>
+          have : (s :: ss).getLast? = some z := by
+            rw [List.getLast?_cons]; simp [hss]
+          simp [this]
+
+/-- The real pipeline, end to end: a reconcile whose pipeline completes, whose connection details
+are published and whose final status update takes effect reports Ready=True iff the LAST step's
+desired state marks the XR ready, or does not mark it unready and marks every desired resource
+READY_TRUE - whatever conditions any step returned, in the response or in the desired XR status. -/
+theorem fn_ready_true_iff (old : St) (r : FnRec) (conds : List FnCond) (last : FnStep)
+    (hp : runPipe r.steps [] none = .ok conds (some last)) (hpub : r.publish = none) (hl : r.lost = false) :
+    statusOf (fnReconcile old r).1.conds "Ready" = some "True" ↔ last.mayReady := by
+  unfold fnReconcile
+  simp only [hp, hpub, hl, Bool.false_eq_true, if_false, Option.map_some, Option.getD_some, Option.bind_some]
+  rw [statusOf_eq, findC_composeOk_ready]
+  simp only [Option.map_some, Option.some.injEq]
+  rw [readyCond_true_iff]
+  unfold FnStep.mayReady composedOf
+  simp
+
+/-- ... and Synced=True iff the API server accepted the apply of every desired resource. -/
+theorem fn_synced_true_iff (old : St) (r : FnRec) (conds : List FnCond) (last : FnStep)
+    (hp : runPipe r.steps [] none = .ok conds (some last)) (hpub : r.publish = none) (hl : r.lost = false) :
+    statusOf (fnReconcile old r).1.conds "Synced" = some "True" ↔ ∀ x ∈ last.res, x.invalid = false := by
+  unfold fnReconcile
+  simp only [hp, hpub, hl, Bool.false_eq_true, if_false, Option.map_some, Option.getD_some, Option.bind_some]
+  rw [statusOf_eq, findC_composeOk_synced]
+  simp only [Option.map_some, Option.some.injEq]
+  rw [syncedCond_true_iff]
+  unfold composedOf
+  simp
+
+/-- the same step with every condition the function supplied removed: those returned in the
+response AND those placed in the desired XR's status.conditions -/
+def FnStep.strip (s : FnStep) : FnStep := { s with conds := [], statusConds := [] }
+def FnRec.strip (r : FnRec) : FnRec := { r with steps := r.steps.map FnStep.strip }
+
+theorem runPipe_strip (steps : List FnStep) (acc : List FnCond) (l : Option FnStep) :
+    runPipe (steps.map FnStep.strip) [] (l.map FnStep.strip) =
+      match runPipe steps acc l with
+      | .error => .error
+      | .fatal _ => .fatal []
+      | .ok _ l2 => .ok [] (l2.map FnStep.strip) := by
+  induction steps generalizing acc l with
+  | nil => rfl
+  | cons s ss ih =>
+    simp only [List.map_cons]
+    unfold runPipe
+    have h1 : s.strip.err = s.err := rfl
+    have h2 : s.strip.fatal = s.fatal := rfl
+    have h3 : s.strip.conds = [] := rfl
+    rw [h1, h2, h3]
+    cases s.err with
+    | true => rfl
+    | false =>
+      cases s.fatal with
+      | true => rfl
+      | false =>
+        simp only [Bool.false_eq_true, if_false, List.append_nil]
+        exact ih (acc ++ s.conds) (some s)
+
+/-- the stored Ready / Synced condition after a function reconcile, whatever the functions supplied -/
+theorem findC_fnReconcile (old : St) (r : FnRec) (t : String) (ht : t = "Ready" ∨ t = "Synced") :
+    findC (fnReconcile old r).1.conds t =
+      match runPipe r.steps [] none with
+      | .error => if r.lost then findC old.conds t else findC (composeError old []).conds t
+      | .fatal _ => if r.lost then findC old.conds t else findC (composeError old []).conds t
+      | .ok _ last =>
+        match r.publish with
+        | some .conflict => findC old.conds t
+        | some _ => if r.lost then findC old.conds t else findC (setCond old.conds reconcileError) t
+        | none => if r.lost then findC old.conds t
+                  else findC (composeOk old ((last.map composedOf).getD []) (last.bind (·.xrReady)) []).conds t := by
+  have hsys : isSystem t = true := by rcases ht with rfl | rfl <;> decide
+  have hm : ∀ sc, findC (mergeStatus old.conds (customOnly sc)) t = findC old.conds t :=
+    fun sc => findC_mergeStatus_system _ _ _ hsys
+  have hok : ∀ (m : St) composed explicit c1, findC m.conds t = findC old.conds t →
+      findC (composeOk m composed explicit c1).conds t = findC (composeOk old composed explicit []).conds t := by
+    intro m composed explicit c1 _
+    rcases ht with rfl | rfl
+    · rw [findC_composeOk_ready, findC_composeOk_ready]
+    · rw [findC_composeOk_synced, findC_composeOk_synced]
+  have herr : ∀ c1, findC (composeError old c1).conds t = findC (composeError old []).conds t := by
+    intro c1
+    rcases ht with rfl | rfl
+    · rw [findC_composeError_ready, findC_composeError_ready]
+    · rw [findC_composeError_synced, findC_composeError_synced]
+  have hre : ∀ sc, findC (setCond (mergeStatus old.conds (customOnly sc)) reconcileError) t = findC (setCond old.conds reconcileError) t := by
+    intro sc
+    rcases ht with rfl | rfl
+    · rw [findC_setCond_ne _ _ _ (by decide), findC_setCond_ne _ _ _ (by decide), hm]
+    · exact (findC_setCond_self _ reconcileError).trans (findC_setCond_self _ reconcileError).symm
+  unfold fnReconcile
+  cases hp : runPipe r.steps [] none with
+  | error => simp only []; split <;> first | rfl | exact herr _
+  | fatal conds => simp only []; split <;> first | rfl | exact herr _
+  | ok conds last =>
+    simp only []
+    cases hpub : r.publish with
+    | none =>
+      simp only []
+      split
+      · exact hm _
+      · exact hok _ _ _ _ (hm _)
+    | some e =>
+      cases e <;> simp only [] <;> first
+        | exact hm _
+        | (split
+           · exact hm _
+           · exact hre _)
+
+/-- Functions cannot forge, across the REAL pipeline and through BOTH channels: the whole stored
+Ready and Synced conditions after any reconcile (completing, FATAL, runner error, publish error of
+any class, lost status update) are those of the same reconcile with every condition the functions
+returned in their responses and every condition they placed in the desired XR's status removed. -/
+theorem fn_no_forge (old : St) (r : FnRec) (t : String) (ht : t = "Ready" ∨ t = "Synced") :
+    findC (fnReconcile old r).1.conds t = findC (fnReconcile old r.strip).1.conds t := by
+  rw [findC_fnReconcile old r t ht, findC_fnReconcile old r.strip t ht]
+  have hs := runPipe_strip r.steps [] none
+  simp only [Option.map_none] at hs
+  have hst : r.strip.steps = r.steps.map FnStep.strip := rfl
+  have hl : r.strip.lost = r.lost := rfl
+  have hpb : r.strip.publish = r.publish := rfl
+  rw [hst, hs, hl, hpb]
+  cases runPipe r.steps [] none with
+  | error => rfl
+  | fatal conds => rfl
+  | ok conds last =>
+    simp only []
+    have e1 : ((last.map FnStep.strip).map composedOf).getD [] = (last.map composedOf).getD [] := by cases last <;> rfl
+    have e2 : (last.map FnStep.strip).bind (·.xrReady) = last.bind (·.xrReady) := by cases last <;> rfl
+    rw [e1, e2]
+
+/-- Whatever the functions return and whatever they put into the desired XR's status, an XR is
+Ready=True after a reconcile only if it was so before, or the reconcile completed and the last
+step's desired state lets the XR be ready. (A pipeline has at least one step.) -/
+theorem fn_ready_only_if (old : St) (r : FnRec) (hne : r.steps ≠ [])
+    (h : statusOf (fnReconcile old r).1.conds "Ready" = some "True") :
+    statusOf old.conds "Ready" = some "True" ∨
+      ∃ conds last, runPipe r.steps [] none = .ok conds (some last) ∧ r.publish = none ∧ r.lost = false ∧ last.mayReady := by
+  rw [statusOf_eq, findC_fnReconcile old r "Ready" (Or.inl rfl)] at h
+  have herr : (findC (composeError old []).conds "Ready").map (·.status) = statusOf old.conds "Ready" := by
+    rw [findC_composeError_ready]; rfl
+  cases hp : runPipe r.steps [] none with
+  | error =>
+    left
+    simp only [hp] at h
+    split at h
+    · exact h
+    · rw [herr] at h; exact h
+  | fatal conds =>
+    left
+    simp only [hp] at h
+    split at h
+    · exact h
+    · rw [herr] at h; exact h
+  | ok conds last =>
+    have hlast := ((runPipe_ok_iff r.steps [] none conds last).mp hp).2.2
+    obtain ⟨z, hz⟩ : ∃ z, r.steps.getLast? = some z := by
+      cases hg : r.steps.getLast? with
+      | none => exact absurd (by simpa using hg) hne
+      | some z => exact ⟨z, rfl⟩
+    rw [hz] at hlast
+    simp only [] at hlast
+    subst hlast
+    simp only [hp] at h
+    cases hpub : r.publish with
+    | some e =>
+      left
+      rw [hpub] at h
+      cases e <;> simp only [] at h <;> first
+        | exact h
+        | (split at h
+           · exact h
+           · rw [findC_setCond_ne _ _ _ (by decide)] at h; exact h)
+    | none =>
+      rw [hpub] at h
+      simp only [] at h
+      cases hl : r.lost with
+      | true => left; rw [hl] at h; exact h
+      | false =>
+        right
+        refine ⟨conds, z, rfl, rfl, rfl, ?_⟩
+        rw [hl] at h
+        simp only [Bool.false_eq_true, if_false, Option.map_some, Option.getD_some, Option.bind_some, findC_composeOk_ready,
+          Option.some.injEq] at h
+        have := (readyCond_true_iff (composedOf z) z.xrReady).mp h
+        unfold FnStep.mayReady
+        unfold composedOf at this
+        simpa using this
+
+/-- ... and Synced=True only if it was so before (and nothing was written), or the reconcile
+completed and the API server accepted the apply of every desired resource of the last step. -/
+theorem fn_synced_only_if (old : St) (r : FnRec) (hne : r.steps ≠ [])
+    (h : statusOf (fnReconcile old r).1.conds "Synced" = some "True") :
+    (statusOf old.conds "Synced" = some "True" ∧ (fnReconcile old r).2 = false) ∨
+      ∃ conds last, runPipe r.steps [] none = .ok conds (some last) ∧ r.publish = none ∧ r.lost = false ∧
+        ∀ x ∈ last.res, x.invalid = false := by
+  have h0 := h
+  rw [statusOf_eq, findC_fnReconcile old r "Synced" (Or.inr rfl)] at h
+  have herr : (findC (composeError old []).conds "Synced").map (·.status) = some "False" := by
+    rw [findC_composeError_synced]; rfl
+  have hre : (findC (setCond old.conds reconcileError) "Synced").map (·.status) = some "False" := by
+    rw [show "Synced" = reconcileError.type from rfl, findC_setCond_self]; rfl
+  cases hp : runPipe r.steps [] none with
+  | error =>
+    left
+    simp only [hp] at h
+    cases hl : r.lost with
+    | true => rw [hl] at h; exact ⟨h, by unfold fnReconcile; simp [hp, hl]⟩
+    | false => rw [hl] at h; simp only [Bool.false_eq_true, if_false] at h; rw [herr] at h; simp at h
+  | fatal conds =>
+    left
+    simp only [hp] at h
+    cases hl : r.lost with
+    | true => rw [hl] at h; exact ⟨h, by unfold fnReconcile; simp [hp, hl]⟩
+    | false => rw [hl] at h; simp only [Bool.false_eq_true, if_false] at h; rw [herr] at h; simp at h
+  | ok conds last =>
+    have hlast := ((runPipe_ok_iff r.steps [] none conds last).mp hp).2.2
+    obtain ⟨z, hz⟩ : ∃ z, r.steps.getLast? = some z := by
+      cases hg : r.steps.getLast? with
+      | none => exact absurd (by simpa using hg) hne
+      | some z => exact ⟨z, rfl⟩
+    rw [hz] at hlast
+    simp only [] at hlast
+    subst hlast
+    simp only [hp] at h
+    cases hpub : r.publish with
+    | some e =>
+      left
+      rw [hpub] at h
+      cases hl : r.lost <;> cases e <;> simp only [hl, Bool.false_eq_true, if_false, if_true] at h <;> first
+        | (rw [hre] at h; simp at h; done)
+        | exact ⟨h, by unfold fnReconcile; simp [hp, hpub, hl]⟩
+    | none =>
+      rw [hpub] at h
+      simp only [] at h
+      cases hl : r.lost with
+      | true => left; rw [hl] at h; exact ⟨h, by unfold fnReconcile; simp [hp, hpub, hl]⟩
+      | false =>
+        right
+        refine ⟨conds, z, rfl, rfl, rfl, ?_⟩
+        rw [hl] at h
+        simp only [Bool.false_eq_true, if_false, Option.map_some, Option.getD_some, Option.bind_some, findC_composeOk_synced,
+          Option.some.injEq] at h
+        have := (syncedCond_true_iff (composedOf z)).mp h
+        unfold composedOf at this
+        simpa using this
+
+/-! ### the claim reconcile in full: both syncers, cache lag and misses, interference, every error class -/
+
+theorem getCond_type (cs : List Cond) (t : String) : (getCond cs t).type = t := by
+  unfold getCond
+  cases hf : cs.find? (·.type = t) with
+  | none => rfl
+  | some x => simpa using List.find?_some hf
+
+/-- copying the listed XR conditions leaves the claim's Ready as it was, or makes it the XR's -/
+theorem statusOf_copy_ready (v : XRView) (base : List Cond) (types : List String) :
+    statusOf (types.foldl (fun acc t => setCond acc (getCond v.conds t)) base) "Ready" = statusOf base "Ready" ∨
+    statusOf (types.foldl (fun acc t => setCond acc (getCond v.conds t)) base) "Ready" = some (getCond v.conds "Ready").status := by
+  induction types generalizing base with
+  | nil => exact Or.inl rfl
+  | cons t ts ih =>
+    simp only [List.foldl_cons]
+    rcases ih (setCond base (getCond v.conds t)) with h | h
+    · by_cases e : t = "Ready"
+      · subst e
+        have := statusOf_setCond_self base (getCond v.conds "Ready")
+        rw [getCond_type] at this
+        right; rw [h, this]
+      · left; rw [h, statusOf_setCond_ne _ _ _ (by rw [getCond_type]; exact fun h => e h.symm)]
+    · exact Or.inr h
+
+theorem getCond_ready_status (cs : List Cond) (h : statusOf cs "Ready" = some "True") : (getCond cs "Ready").status = "True" := by
+  unfold statusOf at h
+  unfold getCond
+  cases hf : cs.find? (·.type = "Ready") with
+  | none => simp [hf] at h
+  | some x => simpa [hf] using h
+
+/-- the two exits on which the XR counts as ready are taken only when the XR exists, is not bound
+to another claim, and is Ready=True as stored when the syncer's write returned -/
+theorem claimPath_ready_exits (xr : XRObj) (c : ClaimCall)
+    (h : claimPath xr c = .available ∨ claimPath xr c = .propagateFailed) :
+    statusOf (c.decides xr).conds "Ready" = some "True" ∧ xr.present = true ∧ (c.sees xr && c.foreign xr) = false := by
+  have hpres : statusOf (c.decides xr).conds "Ready" = some "True" → xr.present = true := by
+    intro hr
+    cases hp : xr.present with
+    | true => rfl
+    | false => simp [ClaimCall.decides, hp, emptyView, statusOf] at hr
+  unfold claimPath at h
+  repeat' (split at h)
+  all_goals first
+    | (simp at h; done)
+    | (refine ⟨by assumption, hpres (by assumption), ?_⟩; simp_all)
+
+/-- A claim reconcile - either syncer, whatever the cache served or missed, whatever the XR
+controller wrote meanwhile, whichever API call failed with whichever error class - stores
+Ready=True only if the claim was Ready=True already, or the XR exists, is not bound to another
+claim (all four components of the reference compared) and was Ready=True AS STORED WHEN THE
+SYNCER'S WRITE RETURNED. -/
+theorem claimCall_ready_true_only_if (old : List Cond) (xr : XRObj) (c : ClaimCall) (cs : List Cond)
+    (h : claimCall old xr c = some cs) (hr : statusOf cs "Ready" = some "True") :
+    statusOf old "Ready" = some "True" ∨
+      (statusOf (c.decides xr).conds "Ready" = some "True" ∧ xr.present = true ∧ (c.sees xr && c.foreign xr) = false) := by
+  unfold claimCall at h
+  split at h
+  · simp at h
+  · cases hp : claimPath xr c with
+    | nothing => simp [hp, pathConds] at h
+    | paused =>
+      simp only [hp, pathConds, Option.some.injEq] at h; subst h
+      left; rw [← hr]; exact (statusOf_setCond_ne _ _ _ (by decide)).symm
+    | failed =>
+      simp only [hp, pathConds, Option.some.injEq] at h; subst h
+      left; rw [← hr]; exact (statusOf_setCond_ne _ _ _ (by decide)).symm
+    | waiting =>
+      simp only [hp, pathConds, Option.some.injEq] at h; subst h
+      have := statusOf_setCond_self (copied old (c.decides xr)) ⟨"Ready", "False", "Waiting"⟩
+      rw [this] at hr; simp at hr
+    | available => exact Or.inr (claimPath_ready_exits xr c (Or.inl hp))
+    | propagateFailed => exact Or.inr (claimPath_ready_exits xr c (Or.inr hp))
+
+/-- On the path where nothing fails, the full model is the per-reconcile model `claimReconcile` run
+on the view stored when the syncer's write returned: hence (claim_ready_iff) the claim is
+Ready=True iff THAT view is - the XR controller's latest word wins over what the reconciler read
+earlier, and the lagging cache never decides. -/
+theorem claimCall_completing (old : List Cond) (xr : XRObj) (c : ClaimCall)
+    (hf : c.fault = none) (hp : c.paused = false) (hb : (c.sees xr && c.foreign xr) = false) (hc : c.csaConflict xr = false) :
+    claimCall old xr c = some (claimReconcile old (c.decides xr).conds (c.decides xr).claimTypes) := by
+  unfold claimCall claimPath ClaimCall.syncFault
+  simp only [hf, hp, hb, hc, Bool.false_eq_true, if_false]
+  unfold claimReconcile claimReady
+  split <;> rfl
+
+theorem claimCall_completing_ready_iff (old : List Cond) (xr : XRObj) (c : ClaimCall) (cs : List Cond)
+    (hf : c.fault = none) (hp : c.paused = false) (hb : (c.sees xr && c.foreign xr) = false) (hc : c.csaConflict xr = false)
+    (h : claimCall old xr c = some cs) :
+    statusOf cs "Ready" = some "True" ↔ statusOf (c.decides xr).conds "Ready" = some "True" := by
+  rw [claimCall_completing old xr c hf hp hb hc, Option.some.injEq] at h
+  subst h
+  exact claim_ready_iff _ _ _
+
+/-- A client-side sync based on a version of the XR that is no longer the stored one (served by a
+lagging cache, or overtaken by the XR controller) never reaches a verdict: nothing is written. -/
+theorem claimCall_csa_conflict_writes_nothing (old : List Cond) (xr : XRObj) (c : ClaimCall)
+    (hc : c.csaConflict xr = true) (hp : c.paused = false) (hf : c.fault = none) (hb : (c.sees xr && c.foreign xr) = false) :
+    claimCall old xr c = none := by
+  unfold claimCall claimPath ClaimCall.syncFault
+  simp [hf, hp, hb, hc, pathConds]
+
+/-- Isolation on the claim side: a reconcile of one claim never changes the stored conditions of
+another, whatever the long-lived reconciler served before. -/
+theorem cstep_other_claims_unchanged (w : CWorld) (s : CStep) (j : Nat) (hj : j ≠ s.claim) :
+    (cstep w s).1.claims[j]? = w.claims[j]? := by
+  unfold cstep
+  split
+  · simp only []
+    split
+    · exact List.getElem?_set_ne (Ne.symm hj)
+    · rfl
+  · rfl
+
+/-! ### when a composed resource counts as ready (P&T readiness checks) -/
+
+/-- A composed resource with readiness checks counts as ready iff EVERY ONE of its checks holds
+(no check is invalid, points at a field of the wrong type, or is unmet) - however many checks
+there are and in whatever order. -/
+theorem checksHold_true_iff (o : RObj) (cs : List RCheck) :
+    checksHold o cs = some true ↔ ∀ c ∈ cs, evalCheck o c = some true := by
+  induction cs with
+  | nil => simp [checksHold]
+  | cons c rest ih =>
+    unfold checksHold
+    cases h : evalCheck o c with
+    | none => simp [h]
+    | some b =>
+      cases b with
+      | false => simp [h]
+      | true => simp [h, ih]
+
+theorem isReady_true_iff (o : RObj) (cs : List RCheck) :
+    isReady o cs = some true ↔
+      (cs = [] ∧ statusOf o.conds "Ready" = some "True") ∨ (cs ≠ [] ∧ ∀ c ∈ cs, evalCheck o c = some true) := by
+  unfold isReady
+  cases cs with
+  | nil => simp
+  | cons c rest =>
+    simp only [List.isEmpty_cons, Bool.false_eq_true, if_false]
+    rw [checksHold_true_iff]
+    simp
+
+/-! ### production of the outcomes by the P&T composer -/
+
+/-- The real P&T composer, end to end: a reconcile that publishes and whose final status update
+takes effect reports Ready=True iff every template's readiness checks hold and no apply was
+rejected, and Synced=True iff no apply was rejected - whatever a ToCompositeFieldPath patch wrote
+into the XR's status.conditions. -/
+theorem pt_ready_true_iff (old : St) (r : PTRec) (hpub : r.publish = none) (hl : r.lost = false) :
+    statusOf (ptReconcile old r).1.conds "Ready" = some "True" ↔ ∀ x ∈ r.res, x.ready = true ∧ x.invalid = false := by
+  unfold ptReconcile
+  simp only [hpub, hl, Bool.false_eq_true, if_false]
+  rw [statusOf_eq, findC_composeOk_ready]
+  simp only [Option.map_some, Option.some.injEq]
+  rw [readyCond_true_iff]
+  unfold ptComposed
+  simp
+
+theorem pt_synced_true_iff (old : St) (r : PTRec) (hpub : r.publish = none) (hl : r.lost = false) :
+    statusOf (ptReconcile old r).1.conds "Synced" = some "True" ↔ ∀ x ∈ r.res, x.invalid = false := by
+  unfold ptReconcile
+  simp only [hpub, hl, Bool.false_eq_true, if_false]
+  rw [statusOf_eq, findC_composeOk_synced]
+  simp only [Option.map_some, Option.some.injEq]
+  rw [syncedCond_true_iff]
+  unfold ptComposed
+  simp
+
+/-- Without such a patch a P&T reconcile that does not complete leaves Ready as it was. -/
+theorem pt_failing_keeps_ready (old : St) (r : PTRec) (hp : r.patch = none) (hf : r.publish ≠ none ∨ r.lost = true) :
+    statusOf (ptReconcile old r).1.conds "Ready" = statusOf old.conds "Ready" := by
+  unfold ptReconcile
+  simp only [hp]
+  cases hpub : r.publish with
+  | none =>
+    rcases hf with h | h
+    · exact absurd hpub h
+    · simp [h]
+  | some e =>
+    cases e <;> simp only [] <;> first
+      | rfl
+      | (split
+         · rfl
+         · exact statusOf_setCond_ne _ _ _ (by decide))
+
+/-- THE UNCHANGED CODE LETS A COMPOSITION SET A SYSTEM CONDITION THROUGH THE XR'S STATUS: the model of
+the existing P&T path on a concrete witness - a ToCompositeFieldPath patch onto
+status.conditions[0].status (the stored Ready=False), the only desired resource NOT ready,
+PublishConnection failing - stores Ready=True after the reconcile (monitor
+`C05:system-condition-set-via-xr-status-patch`, corpus/C05/pt-status-conditions-patch.jsonl). -/
+theorem system_condition_via_xr_status_patch_fails_on_unfixed_witness :
+    statusOf (ptReconcile ⟨[⟨"Ready", "False", "Creating"⟩], []⟩
+      ⟨[⟨"a", false, false⟩], some (0, "True"), some .generic, false⟩).1.conds "Ready" = some "True" := by
+  decide
+
 /-! ### non-vacuity -/
 example : (reconcile ⟨[⟨"Ready", "False", "Creating"⟩], []⟩ [⟨"a", true, true⟩] none
     [⟨⟨"Ready", "True", "Forged"⟩, false⟩] .none).map (fun st => statusOf st.conds "Ready") = some (some "True") := by decide
 example : (reconcile ⟨[], []⟩ [⟨"a", true, false⟩] none
     [⟨⟨"Ready", "True", "Forged"⟩, false⟩] .none).map (fun st => statusOf st.conds "Ready") = some (some "False") := by decide
+
+/-- two XRs, one long-lived reconciler: XR 0 completes with everything ready, then XR 1 fails in
+Compose with a wrapped AlreadyExists while its functions try to forge Ready=True -/
+example : (runSeq [⟨[⟨"Ready", "False", "Creating"⟩], []⟩, ⟨[⟨"Ready", "False", "Creating"⟩], []⟩]
+    [⟨0, ⟨false, [⟨"a", true, true⟩, ⟨"a", true, true⟩], none, [], none, false⟩⟩,
+     ⟨1, ⟨false, [⟨"a", true, true⟩], some true, [⟨⟨"Ready", "True", "Forged"⟩, true⟩], some (.compose, .alreadyExists), false⟩⟩]).map
+      (fun st => statusOf st.conds "Ready") = [some "True", some "False"] := by decide
+
+/-- a claim reconcile overtaken by the XR controller (the XR turns unready between the read and the
+server-side syncer's write): the claim waits -/
+example : (claimCall [] ⟨true, some ⟨"example.org/v1", "Thing", "ns", "claim"⟩, ⟨[⟨"Ready", "True", "Available"⟩], []⟩⟩
+    ⟨true, ⟨"example.org/v1", "Thing", "ns", "claim"⟩, false, false, some ⟨[⟨"Ready", "False", "Creating"⟩], []⟩, none⟩).map
+      (fun cs => statusOf cs "Ready") = some (some "False") := by decide
+
+/-- ... the client-side syncer's write conflicts instead, and nothing is written -/
+example : claimCall [] ⟨true, some ⟨"example.org/v1", "Thing", "ns", "claim"⟩, ⟨[⟨"Ready", "True", "Available"⟩], []⟩⟩
+    ⟨false, ⟨"example.org/v1", "Thing", "ns", "claim"⟩, false, false, some ⟨[⟨"Ready", "False", "Creating"⟩], []⟩, none⟩ = none := by decide
+
+/-- the same claim name in another namespace is another claim -/
+example : (claimCall [] ⟨true, some ⟨"example.org/v1", "Thing", "ns2", "claim"⟩, ⟨[⟨"Ready", "True", "Available"⟩], []⟩⟩
+    ⟨true, ⟨"example.org/v1", "Thing", "ns", "claim"⟩, false, false, none, none⟩).map
+      (fun cs => (statusOf cs "Ready", statusOf cs "Synced")) = some (none, some "False") := by decide
+
+/-- a function that puts Ready=True into the desired XR status while its only resource is unready
+and publishing fails: Ready stays as it was -/
+example : statusOf (fnReconcile ⟨[⟨"Ready", "False", "Creating"⟩], []⟩
+    ⟨[{ conds := [], fatal := false, err := false, res := [⟨"a", some false, false⟩], xrReady := none,
+        statusConds := [⟨"Ready", "True", "InStatus"⟩, ⟨"Custom", "True", "InStatus"⟩] }], some .generic, false⟩).1.conds "Ready"
+      = some "False" := by decide
+
+/-- two readiness checks, the second one unmet -/
+example : isReady ⟨.str "ok", .absent, .absent, []⟩
+    [⟨"MatchString", "status.s", "ok", 0, false, "", ""⟩, ⟨"NonEmpty", "status.n", "", 0, false, "", ""⟩] = some false := by decide
 
 end Xp.C05
